@@ -19,7 +19,23 @@ func (closerSuite) Gen(r *rand.Rand, i int) Case {
 	sleep := []int64{1, 20, 60, 1000}[r.Intn(4)]
 	half := int64(1 + r.Intn(3))
 	req := int64(1 + r.Intn(3))
-	c := Case{Header: fmt.Sprintf("closer sleep=%d half=%d req=%d", sleep, half, req)}
+	hs, hh, hr := sleep, half, req
+	var dtags []string
+	if r.Intn(6) == 0 {
+		// settings LEFT UNSET at construction (0): the documented defaults apply — a 5 s sleep window, 1 probe, 1 success
+		dtags = append(dtags, "defaults")
+		if u := r.Intn(4); u == 0 || u == 3 {
+			hs, sleep = 0, 5_000_000_000
+		}
+		if u := r.Intn(3); u == 0 {
+			hh, half = 0, 1
+		}
+		if u := r.Intn(3); u == 0 {
+			hr, req = 0, 1
+		}
+	}
+	_, _ = half, req
+	c := Case{Header: fmt.Sprintf("closer sleep=%d half=%d req=%d", hs, hh, hr), Tags: dtags}
 	t := int64(r.Intn(50))
 	next := int64(-1)
 	armed := 0
